@@ -293,11 +293,15 @@ def render(s: Schema, which: str = "main") -> dict[str, str]:
         else:
             (moved if (s.include is not None and t.name in getattr(s.include, "moved", ())) else body).append(render_simple_def(t, f' name="{t.name}"'))
     text = head + "".join(body) + "</xs:schema>"
-    if not s.tns:
-        text = text.replace('type="t:', 'type="').replace('ref="t:', 'ref="').replace('base="t:', 'base="').replace('substitutionGroup="t:', 'substitutionGroup="')
-    files["main.xsd"] = text
+    def strip_t(x: str) -> str:
+        if s.tns:
+            return x
+        return (x.replace('type="t:', 'type="').replace('ref="t:', 'ref="').replace('base="t:', 'base="')
+                .replace('substitutionGroup="t:', 'substitutionGroup="').replace('itemType="t:', 'itemType="'))
+
+    files["main.xsd"] = strip_t(text)
     if s.include is not None:
-        files["part.xsd"] = head.replace(' xmlns:o="urn:other">', ">") + "".join(moved) + "</xs:schema>"
+        files["part.xsd"] = strip_t(head.replace(' xmlns:o="urn:other">', ">") + "".join(moved) + "</xs:schema>")
     if s.import_ is not None:
         files["other.xsd"] = ('<?xml version="1.0" encoding="UTF-8"?>\n<xs:schema xmlns:xs="http://www.w3.org/2001/XMLSchema" targetNamespace="urn:other" '
                               'xmlns:o="urn:other" elementFormDefault="qualified"><xs:element name="ext" type="xs:string"/>'
